@@ -47,8 +47,12 @@ def c15_nontrivial(op, impl):
 
 def run_c15(ctx):
     run_stream(ctx, "pae", ["c15"], policy="okerr", oracle=c15_oracle, nontrivial=c15_nontrivial)
+    # the private digest / MAC writer adapters of the back ends: observable only through tokens
+    run_stream(ctx, "writers", ["c15w"], policy="okerr", oracle=open_oracle("C15"), nontrivial=tok_nontrivial)
     ctx.cov["rule"] = ("piece counts 0..10 x fragment counts 0..4 x fragment lengths 0..600 (random/zero/ones/ascii), boundary-shift families and the "
-                       "header-as-three-fragments shapes of every back end; non-trivial = at least one piece; distinct = (piece count, fragments per piece, length class per piece)")
+                       "header-as-three-fragments shapes of every back end; non-trivial = at least one piece; distinct = (piece count, fragments per piece, length class per piece); "
+                       "stream `writers`: the back ends' digest / MAC writer adapters, observed through tokens whose message / footer / assertion lengths straddle 16 / 64 / 128-byte blocks: injected-nonce tokens byte-compared with the model, "
+                       "specification-built tokens offered to every back end, siblings compared")
 
 
 # ------------------------------------------------------------------ C09
